@@ -224,14 +224,65 @@ Fixpoint diff_from (h : hdr) (w : world) (l : list item) (i : N) : N :=
 Definition at_key {K V} (e : K -> K -> bool) (k : K) (ks : list K) (vs : list V) : option V :=
   aget e k (combine ks vs).
 
+(* ---- ghost state: what the successful calls of the trace so far have established at the issuers.
+   "Key currently allowed for the topic", "current nonce", "revoked" are read off this history,
+   not off the implementation's getters (the getters are checked against it). ---- *)
+Definition grant := (addr * skey * Z * addr)%type.        (* issuer, key, topic, registry *)
+Definition grant_eqb (a b : grant) : bool :=
+  let '(i1, k1, t1, r1) := a in let '(i2, k2, t2, r2) := b in
+  N.eqb i1 i2 && skey_eqb k1 k2 && (t1 =? t2) && N.eqb r1 r2.
+Definition gkey := (addr * addr * Z)%type.                 (* issuer, identity, topic *)
+Definition gkey_eqb (a b : gkey) : bool :=
+  N.eqb (fst (fst a)) (fst (fst b)) && N.eqb (snd (fst a)) (snd (fst b)) && (snd a =? snd b).
+Definition rgkey := (addr * rkey)%type.                    (* issuer, (identity, topic, data) *)
+Definition rgkey_eqb (a b : rgkey) : bool := N.eqb (fst a) (fst b) && rkey_eqb (snd a) (snd b).
+Record ghost := GH {
+  g_grants : list grant;                  (* authorisations granted by allow_key and not removed *)
+  g_nonce : list (gkey * Z);              (* number of successful invalidate_claim_signatures *)
+  g_rev : list (rgkey * bool)             (* last successful set_claim_revoked *)
+}.
+Definition ghost0 : ghost := GH [] [] [].
+Definition gnonce (g : ghost) (i d : addr) (t : Z) : Z :=
+  match aget gkey_eqb (i, d, t) (g_nonce g) with Some n => n | None => 0 end.
+Definition grev (g : ghost) (i : addr) (q : rkey) : bool :=
+  match aget rgkey_eqb (i, q) (g_rev g) with Some r => r | None => false end.
+Definition ghost_step (g : ghost) (k : call) (out : outcome) : ghost :=
+  match k, out with
+  | AllowKey i pk r sc t, Ok _ => GH ((i, (pk, sc), t, r) :: g_grants g) (g_nonce g) (g_rev g)
+  | RemoveKey i pk r sc t, Ok _ =>
+      GH (filter (fun x => negb (grant_eqb x (i, (pk, sc), t, r))) (g_grants g)) (g_nonce g) (g_rev g)
+  | Invalidate i d t, Ok _ => GH (g_grants g) (aset gkey_eqb (i, d, t) (gnonce g i d t + 1) (g_nonce g)) (g_rev g)
+  | SetRevoked i d t data r, Ok _ => GH (g_grants g) (g_nonce g) (aset rgkey_eqb (i, (d, t, data)) r (g_rev g))
+  | _, _ => g
+  end.
+Definition grant_for (i : addr) (k : skey) (t : Z) (x : grant) : bool :=
+  let '(i', k', t', _) := x in N.eqb i' i && skey_eqb k' k && (t' =? t).
+Definition granted (g : list grant) (i : addr) (k : skey) (t : Z) : bool := existsb (grant_for i k t) g.
+
+Definition len_is {A} (l : list A) (n : nat) : bool := Nat.eqb (length l) n.
+
 Section Monitor.
   Variable h : hdr.
   Variable o : obs.
+  Variable g : ghost.
 
   Definition cti_at (a : addr) : option cti_obs := at_key N.eqb a (h_ctis h) (o_ctis o).
   Definition irs_at (a : addr) : option irs_obs := at_key N.eqb a (h_irss h) (o_irss o).
   Definition ident_at (a : addr) : option ident_obs := at_key N.eqb a (h_idents h) (o_idents o).
   Definition issuer_at (a : addr) : option issuer_obs := at_key N.eqb a (h_issuers h) (o_issuers o).
+
+  (* ---- shape: every positional list has the length of its universe list (combine truncates) ---- *)
+  Definition shape_ok : bool :=
+    let nt := length (h_topics h) in let ni := length (h_iaddrs h) in let na := length (h_accounts h) in
+    len_is (o_ctis o) (length (h_ctis h)) && len_is (o_irss o) (length (h_irss h))
+    && len_is (o_idents o) (length (h_idents h)) && len_is (o_issuers o) (length (h_issuers h))
+    && len_is (vo_verify (o_ver o)) na
+    && forallb (fun co => len_is (co_tissuers co) nt && len_is (co_itopics co) ni && len_is (co_trusted co) ni
+                          && len_is (co_has co) ni && forallb (fun r => len_is r nt) (co_has co)) (o_ctis o)
+    && forallb (fun io => len_is (io_stored io) na && len_is (io_recovered io) na) (o_irss o)
+    && forallb (fun dob => len_is (do_ids dob) nt && len_is (do_claims dob) ni
+                           && forallb (fun r => len_is r nt) (do_claims dob)) (o_idents o)
+    && forallb (fun so => len_is (so_keys so) nt && len_is (so_regs so) (length (h_keys h))) (o_issuers o).
 
   (* issuer i is currently trusted for topic t at the registry: registered as trusted issuer
      and t among its claim topics (read through is_trusted_issuer / has_claim_topic) *)
@@ -261,15 +312,20 @@ Section Monitor.
     | None => false
     end.
 
-  (* every id the identity lists under a topic of the universe resolves to a stored claim *)
-  Definition index_sound (d : addr) : bool :=
-    match ident_at d with
-    | Some dob => forallb (fun t => forallb (fun id : cid => is_some (cell_at dob (fst id) (snd id))) (ids_at dob t)) (h_topics h)
-    | None => true
-    end.
-
   Definition topic_satisfied (co : cti_obs) (d : addr) (t : Z) : bool :=
     existsb (fun i => trusted_for co i t && holds_valid d i t) (h_iaddrs h).
+
+  (* The code traps (and so refuses) when, for a REQUIRED topic, the identity lists the claim id of
+     an issuer trusted for that topic but serves no claim for it - an inconsistent identity contract;
+     the library's own claim store never is.  Only then is the answer not determined by the property
+     text (the text would allow success through another issuer); refusal is the safe side. *)
+  Definition dangling (co : cti_obs) (d : addr) : bool :=
+    match ident_at d with
+    | Some dob =>
+        existsb (fun t => existsb (fun i => trusted_for co i t && existsb (cid_eqb (i, t)) (ids_at dob t)
+                                            && negb (is_some (cell_at dob i t))) (h_iaddrs h)) (co_topics co)
+    | None => false
+    end.
 
   (* what the property says verify_identity(account) must answer; the second component says
      whether the answer is determined (iff) or only bounded from above (verified -> expected) *)
@@ -279,7 +335,7 @@ Section Monitor.
         match irs_at ra, cti_at ca with
         | Some io, Some co =>
             match at_key N.eqb a (h_accounts h) (io_stored io) with
-            | Some (Ok d) => (forallb (topic_satisfied co d) (co_topics co), index_sound d)
+            | Some (Ok d) => (forallb (topic_satisfied co d) (co_topics co), negb (dangling co d))
             | _ => (false, true)
             end
         | _, _ => (false, true)
@@ -293,33 +349,42 @@ Section Monitor.
                if exact then Bool.eqb (snd av) e else implb (snd av) e)
             (combine (h_accounts h) (vo_verify (o_ver o))).
 
-  (* the reference issuer confirms exactly the claims that are signed, over network, issuer,
-     identity, topic, current nonce and data, by a key currently allowed for the topic, and are
-     neither expired nor revoked *)
-  Definition confirm_expected (d i : addr) (t : Z) (cl : claim) (info : option bool * bool * Z) : bool :=
-    let '(ka, revoked, nonce) := info in
-    match extract_sig (cl_scheme cl) (cl_sig cl) with
-    | Fail => false
-    | Ok sd =>
-        match ka with Some true => true | _ => false end
-        && match decode_expiration (cl_data cl) with
-           | Ok (_, valid_until, _) => o_now o <? valid_until
-           | Fail => false
-           end
-        && negb revoked
-        && sig_table (h_sigs h) (cl_scheme cl) (sd_pk sd)
-             (build_claim_message (h_net h) (xdr_table (h_xdr h) i) (xdr_table (h_xdr h) d) t nonce (cl_data cl))
-             (sd_sig sd) (sd_rid sd)
-    end.
+  (* The reference issuer i confirms the claim (scheme, sig, data) of identity d for topic t exactly
+     when: i is an issuer contract, the signature data has the layout of the scheme, its key has a
+     live authorisation for the topic, valid_until lies after the current timestamp, the claim was
+     not revoked (and not un-revoked since), and the signature scheme accepts the signature over
+     network || issuer || identity || topic || number of nonce bumps so far || data. *)
+  Definition confirm_expected (d i : addr) (t scheme : Z) (sg data : bytes) : bool :=
+    mem_a i (h_issuers h)
+    && match extract_sig scheme sg with
+       | Fail => false
+       | Ok sd =>
+           granted (g_grants g) i (sd_pk sd, scheme) t
+           && match decode_expiration data with
+              | Ok (_, valid_until, _) => o_now o <? valid_until
+              | Fail => false
+              end
+           && negb (grev g i (d, t, data))
+           && sig_table (h_sigs h) scheme (sd_pk sd)
+                (build_claim_message (h_net h) (xdr_table (h_xdr h) i) (xdr_table (h_xdr h) d) t (gnonce g i d t) data)
+                (sd_sig sd) (sd_rid sd)
+       end.
+  (* what the issuer's own getters must answer about a held claim *)
+  Definition info_expected (d i : addr) (t : Z) (cl : claim) : option (option bool * bool * Z) :=
+    if mem_a i (h_issuers h) then
+      Some (match extract_sig (cl_scheme cl) (cl_sig cl) with
+            | Ok sd => Some (granted (g_grants g) i (sd_pk sd, cl_scheme cl) t)
+            | Fail => None
+            end, grev g i (d, t, cl_data cl), gnonce g i d t)
+    else None.
 
   Definition cell_ok (d i : addr) (t : Z) (c : option cdetail) : bool :=
     match c with
     | None => true
     | Some cd =>
-        match cd_info cd with
-        | Some info => Bool.eqb (cd_confirmed cd) (confirm_expected d i t (cd_claim cd) info)
-        | None => negb (cd_confirmed cd)         (* not an issuer contract: never confirms *)
-        end
+        opt_eqb info_eqb (cd_info cd) (info_expected d i t (cd_claim cd))
+        && Bool.eqb (cd_confirmed cd)
+             (confirm_expected d i t (cl_scheme (cd_claim cd)) (cl_sig (cd_claim cd)) (cl_data (cd_claim cd)))
     end.
 
   Definition issuers_ok : bool :=
@@ -330,10 +395,17 @@ Section Monitor.
         (combine (h_iaddrs h) (do_claims (snd dd))))
       (combine (h_idents h) (o_idents o)).
 
-  (* the two indexes of the registry agree: i is listed under topic t  <->  i is a trusted issuer
-     whose topics include t; and the map handed to the verifier is the per-topic lists *)
+  (* the registry: is_trusted_issuer / has_claim_topic are membership in get_trusted_issuers /
+     get_trusted_issuer_claim_topics; the two indexes agree (i is listed under topic t <-> i is a
+     trusted issuer whose topics include t); the map handed to the verifier is the per-topic lists *)
   Definition registry_ok (co : cti_obs) : bool :=
-    forallb (fun i =>
+    list_eqb Bool.eqb (co_trusted co) (map (fun i => mem_a i (co_issuers co)) (h_iaddrs h))
+    && list_eqb (list_eqb rb_eqb) (co_has co)
+         (map (fun rt : res (list Z) => map (fun t => match rt with Ok l => if mem_z t l then T else F | Fail => X end) (h_topics h))
+              (co_itopics co))
+    && forallb (fun ir : addr * res (list Z) => Bool.eqb (is_ok (snd ir)) (mem_a (fst ir) (co_issuers co)))
+         (combine (h_iaddrs h) (co_itopics co))
+    && forallb (fun i =>
       forallb (fun t =>
         Bool.eqb
           (mem_z t (co_topics co) &&
@@ -349,117 +421,282 @@ Section Monitor.
        | Fail => false
        end.
 
-  Definition mon_state : bool := verify_ok && issuers_ok && forallb registry_ok (o_ctis o).
+  (* identity registry: a recovered account has no registered identity *)
+  Definition irs_ok (io : irs_obs) : bool :=
+    forallb (fun sr : res addr * option addr => negb (is_some (snd sr)) || negb (is_ok (fst sr)))
+            (combine (io_stored io) (io_recovered io)).
+
+  (* the issuers' getters agree with the history: get_keys_for_topic lists exactly the keys with a
+     live authorisation, get_current_nonce_for counts the bumps, is_claim_revoked is the last flag set *)
+  Definition keys_ok : bool :=
+    forallb (fun iso : addr * issuer_obs =>
+      forallb (fun tk : Z * res (list skey) =>
+         let listed := match snd tk with Ok l => l | Fail => [] end in
+         forallb (fun k => granted (g_grants g) (fst iso) k (fst tk)) listed
+         && forallb (fun x : grant =>
+                       negb (N.eqb (fst (fst (fst x))) (fst iso) && (snd (fst x) =? fst tk))
+                       || existsb (skey_eqb (snd (fst (fst x)))) listed) (g_grants g))
+        (combine (h_topics h) (so_keys (snd iso)))
+      && list_eqb (list_eqb Z.eqb) (so_nonce (snd iso))
+           (map (fun d => map (gnonce g (fst iso) d) (h_topics h)) (h_idents h))
+      && forallb (fun qv : rkey * bool => Bool.eqb (snd qv) (grev g (fst iso) (fst qv))) (so_revoked (snd iso)))
+      (combine (h_issuers h) (o_issuers o)).
+
+  Definition mon_state : bool :=
+    shape_ok && verify_ok && issuers_ok && forallb registry_ok (o_ctis o) && forallb irs_ok (o_irss o) && keys_ok.
 End Monitor.
 
-(* temporal clauses: a successful nonce bump raises the current nonce by one; a successful
-   set_claim_revoked is what is_claim_revoked answers afterwards *)
-Definition nonce_at (h : hdr) (o : obs) (i d : addr) (t : Z) : option Z :=
-  match issuer_at h o i with
-  | Some so => match at_key N.eqb d (h_idents h) (so_nonce so) with
-               | Some row => at_key Z.eqb t (h_topics h) row
-               | None => None
-               end
-  | None => None
-  end.
-Definition revoked_at (h : hdr) (o : obs) (i : addr) (q : rkey) : option bool :=
-  match issuer_at h o i with
-  | Some so => aget rkey_eqb q (so_revoked so)
-  | None => None
-  end.
+(* ------------------------------------------------------------------------- *)
+(* calls: outcomes and effects                                                *)
+(* ------------------------------------------------------------------------- *)
+(* the part of an identity observation that is stored in the identity contract *)
+Definition ident_static_eqb (a b : ident_obs) : bool :=
+  list_eqb (list_eqb cid_eqb) (do_ids a) (do_ids b)
+  && list_eqb (list_eqb (opt_eqb claim_eqb)) (map (map (option_map cd_claim)) (do_claims a))
+       (map (map (option_map cd_claim)) (do_claims b)).
+(* the part of an issuer observation not already determined by the ghost *)
+Definition issuer_static_eqb (a b : issuer_obs) : bool :=
+  list_eqb (res_eqb (list_eqb N.eqb)) (so_regs a) (so_regs b).
+Definition links_eqb (p o : obs) : bool :=
+  opt_eqb N.eqb (vo_cti (o_ver p)) (vo_cti (o_ver o)) && opt_eqb N.eqb (vo_irs (o_ver p)) (vo_irs (o_ver o)).
 
-(* frame clauses: which nonces / revocation flags an operation may change
-   (revocation does not depend on the nonce and vice versa; one (identity, topic) pair or one claim
-   at one issuer at a time) *)
-Definition nonces_frame (h : hdr) (p o : obs) (exc : addr -> addr -> Z -> bool) : bool :=
-  forallb (fun i => forallb (fun d => forallb (fun t =>
-    exc i d t || opt_eqb Z.eqb (nonce_at h p i d t) (nonce_at h o i d t)) (h_topics h)) (h_idents h)) (h_issuers h).
-Definition revocations_frame (h : hdr) (p o : obs) (exc : addr -> rkey -> bool) : bool :=
-  forallb (fun i => forallb (fun q =>
-    exc i q || match revoked_at h p i q with
-               | Some v => opt_eqb Bool.eqb (Some v) (revoked_at h o i q)
-               | None => true
-               end) (revq_of p)) (h_issuers h).
+Inductive target := TNone | TCti (a : addr) | TIrs (a : addr) | TIdent (a : addr) | TIssuer (a : addr) | TLinks.
 
-(* the passage of time / of ledgers changes nothing that was stored: registries, identities, held
-   claims, keys, nonces, revocation flags, links (everything observed except the clock, the
-   issuers' verdicts and verify_identity, which depend on the timestamp through expiry only) *)
-Definition strip_cd (c : option cdetail) : option (claim * option (option bool * bool * Z)) :=
-  match c with Some cd => Some (cd_claim cd, cd_info cd) | None => None end.
-Definition static_eqb (p o : obs) : bool :=
-  list_eqb cti_obs_eqb (o_ctis p) (o_ctis o) && list_eqb irs_obs_eqb (o_irss p) (o_irss o)
-  && list_eqb (fun a b => list_eqb (list_eqb cid_eqb) (do_ids a) (do_ids b)
-                          && list_eqb (list_eqb (opt_eqb (pair_eqb claim_eqb (opt_eqb info_eqb))))
-                               (map (map strip_cd) (do_claims a)) (map (map strip_cd) (do_claims b)))
-       (o_idents p) (o_idents o)
-  && list_eqb issuer_obs_eqb (o_issuers p) (o_issuers o)
-  && opt_eqb N.eqb (vo_cti (o_ver p)) (vo_cti (o_ver o)) && opt_eqb N.eqb (vo_irs (o_ver p)) (vo_irs (o_ver o)).
+(* everything stored is observed as before, except at the one contract the call addresses *)
+Definition frame (h : hdr) (p o : obs) (tg : target) : bool :=
+  forallb (fun x : addr * (cti_obs * cti_obs) =>
+             (match tg with TCti c => N.eqb (fst x) c | _ => false end) || cti_obs_eqb (fst (snd x)) (snd (snd x)))
+          (combine (h_ctis h) (combine (o_ctis p) (o_ctis o)))
+  && forallb (fun x : addr * (irs_obs * irs_obs) =>
+             (match tg with TIrs c => N.eqb (fst x) c | _ => false end) || irs_obs_eqb (fst (snd x)) (snd (snd x)))
+          (combine (h_irss h) (combine (o_irss p) (o_irss o)))
+  && forallb (fun x : addr * (ident_obs * ident_obs) =>
+             (match tg with TIdent c => N.eqb (fst x) c | _ => false end) || ident_static_eqb (fst (snd x)) (snd (snd x)))
+          (combine (h_idents h) (combine (o_idents p) (o_idents o)))
+  && forallb (fun x : addr * (issuer_obs * issuer_obs) =>
+             (match tg with TIssuer c => N.eqb (fst x) c | _ => false end) || issuer_static_eqb (fst (snd x)) (snd (snd x)))
+          (combine (h_issuers h) (combine (o_issuers p) (o_issuers o)))
+  && ((match tg with TLinks => true | _ => false end) || links_eqb p o).
 
-Definition mon_call (h : hdr) (prev : option obs) (k : call) (out : outcome) (o : obs) : bool :=
-  match k, out with
-  | Advance _, Ok _ | Ledger _ _, Ok _ =>
-      match prev with Some p => static_eqb p o | None => true end
-  | Invalidate i d t, Ok _ =>
-      match prev with
-      | Some p =>
-          match nonce_at h p i d t, nonce_at h o i d t with
-          | Some n, Some n' => n' =? n + 1
-          | _, _ => true
+(* the value a positional list must have after one entry changed *)
+Definition upd_at {K V} (e : K -> K -> bool) (k : K) (v : V) (ks : list K) (vs : list V) : list V :=
+  map (fun kv : K * V => if e (fst kv) k then v else snd kv) (combine ks vs).
+Definition res_map {A B} (f : A -> B) (r : res A) : res B := match r with Ok a => Ok (f a) | Fail => Fail end.
+
+Section Calls.
+  Variable h : hdr.
+  Variable p o : obs.       (* observation before and after the call *)
+  Variable g : ghost.       (* ghost state after the call *)
+
+  Definition in_ctis (a : addr) := mem_a a (h_ctis h).
+  (* --- effects of the successful mutators, in terms of the getters before and after --- *)
+  Definition cti_effect (c : addr) (f : cti_obs -> cti_obs -> bool) : bool :=
+    match cti_at h p c, cti_at h o c with Some pc, Some oc => f pc oc | _, _ => false end.
+  Definition irs_effect (c : addr) (f : irs_obs -> irs_obs -> bool) : bool :=
+    match irs_at h p c, irs_at h o c with Some pc, Some oc => f pc oc | _, _ => false end.
+  Definition ident_effect (c : addr) (f : ident_obs -> ident_obs -> bool) : bool :=
+    match ident_at h p c, ident_at h o c with Some pc, Some oc => f pc oc | _, _ => false end.
+
+  Definition zl_eqb := list_eqb Z.eqb.
+  Definition al_eqb := list_eqb N.eqb.
+  Definition itopics_eqb := list_eqb (res_eqb (list_eqb Z.eqb)).
+  Definition claims_of (dob : ident_obs) : list (list (option claim)) := map (map (option_map cd_claim)) (do_claims dob).
+  (* cells after one claim changed: position (i, t) holds v *)
+  Definition claims_upd (id : cid) (v : option claim) (cs : list (list (option claim))) : list (list (option claim)) :=
+    map (fun ir : addr * list (option claim) =>
+           map (fun tc : Z * option claim => if N.eqb (fst ir) (fst id) && (fst tc =? snd id) then v else snd tc)
+               (combine (h_topics h) (snd ir)))
+        (combine (h_iaddrs h) cs).
+  Definition ids_upd (t : Z) (v : list cid) (l : list (list cid)) : list (list cid) := upd_at Z.eqb t v (h_topics h) l.
+  Definition id_in_universe (id : cid) : bool := mem_a (fst id) (h_iaddrs h) && mem_z (snd id) (h_topics h).
+  Definition claim_cell (dob : ident_obs) (id : cid) : option claim := option_map cd_claim (cell_at h dob (fst id) (snd id)).
+
+  Definition effect_ok (k : call) (out : oval) : bool :=
+    match k with
+    | AddTopic c t =>
+        frame h p o (TCti c) && cti_effect c (fun pc oc =>
+          zl_eqb (co_topics oc) (co_topics pc ++ [t]) && al_eqb (co_issuers oc) (co_issuers pc)
+          && itopics_eqb (co_itopics oc) (co_itopics pc))
+    | RemoveTopic c t =>
+        frame h p o (TCti c) && cti_effect c (fun pc oc =>
+          mem_z t (co_topics pc)
+          && zl_eqb (co_topics oc) (remove_first_or_same (Z.eqb t) (co_topics pc)) && al_eqb (co_issuers oc) (co_issuers pc)
+          && itopics_eqb (co_itopics oc) (map (res_map (remove_first_or_same (Z.eqb t))) (co_itopics pc)))
+    | AddIssuer c i ts =>
+        mem_a i (h_iaddrs h) &&
+        frame h p o (TCti c) && cti_effect c (fun pc oc =>
+          zl_eqb (co_topics oc) (co_topics pc) && al_eqb (co_issuers oc) (co_issuers pc ++ [i])
+          && itopics_eqb (co_itopics oc) (upd_at N.eqb i (Ok ts) (h_iaddrs h) (co_itopics pc)))
+    | RemoveIssuer c i =>
+        mem_a i (h_iaddrs h) &&
+        frame h p o (TCti c) && cti_effect c (fun pc oc =>
+          mem_a i (co_issuers pc)
+          && zl_eqb (co_topics oc) (co_topics pc) && al_eqb (co_issuers oc) (remove_first_or_same (N.eqb i) (co_issuers pc))
+          && itopics_eqb (co_itopics oc) (upd_at N.eqb i Fail (h_iaddrs h) (co_itopics pc)))
+    | UpdateIssuer c i ts =>
+        mem_a i (h_iaddrs h) &&
+        frame h p o (TCti c) && cti_effect c (fun pc oc =>
+          mem_a i (co_issuers pc)
+          && zl_eqb (co_topics oc) (co_topics pc) && al_eqb (co_issuers oc) (co_issuers pc)
+          && itopics_eqb (co_itopics oc) (upd_at N.eqb i (Ok ts) (h_iaddrs h) (co_itopics pc)))
+    | AddIdentity r a d _ | ModifyIdentity r a d =>
+        mem_a a (h_accounts h) &&
+        frame h p o (TIrs r) && irs_effect r (fun pc oc =>
+          list_eqb (res_eqb N.eqb) (io_stored oc) (upd_at N.eqb a (Ok d) (h_accounts h) (io_stored pc))
+          && list_eqb (opt_eqb N.eqb) (io_recovered oc) (io_recovered pc))
+    | RemoveIdentity r a =>
+        mem_a a (h_accounts h) &&
+        frame h p o (TIrs r) && irs_effect r (fun pc oc =>
+          match at_key N.eqb a (h_accounts h) (io_stored pc) with Some (Ok _) => true | _ => false end
+          && list_eqb (res_eqb N.eqb) (io_stored oc) (upd_at N.eqb a Fail (h_accounts h) (io_stored pc))
+          && list_eqb (opt_eqb N.eqb) (io_recovered oc) (io_recovered pc))
+    | RecoverIdentity r old new =>
+        mem_a old (h_accounts h) && mem_a new (h_accounts h) &&
+        frame h p o (TIrs r) && irs_effect r (fun pc oc =>
+          match at_key N.eqb old (h_accounts h) (io_stored pc) with
+          | Some (Ok d) =>
+              list_eqb (res_eqb N.eqb) (io_stored oc)
+                (upd_at N.eqb old Fail (h_accounts h) (upd_at N.eqb new (Ok d) (h_accounts h) (io_stored pc)))
+          | _ => false
           end
-          && nonces_frame h p o (fun i' d' t' => N.eqb i' i && N.eqb d' d && (t' =? t))
-          && revocations_frame h p o (fun _ _ => false)
-      | None => true
-      end
-  | SetRevoked i d t data r, Ok _ =>
-      match revoked_at h o i (d, t, data) with Some r' => Bool.eqb r r' | None => true end
-      && match prev with
-         | Some p =>
-             nonces_frame h p o (fun _ _ _ => false)
-             && revocations_frame h p o (fun i' q => N.eqb i' i && rkey_eqb q (d, t, data))
-         | None => true
-         end
-  | _, _ => true
-  end.
+          && list_eqb (opt_eqb N.eqb) (io_recovered oc) (upd_at N.eqb old (Some new) (h_accounts h) (io_recovered pc)))
+    | AddClaim d cl =>
+        let id := (cl_issuer cl, cl_topic cl) in
+        id_in_universe id && oval_eqb out (VCid id) &&
+        frame h p o (TIdent d) && ident_effect d (fun pc oc =>
+          list_eqb (list_eqb (opt_eqb claim_eqb)) (claims_of oc) (claims_upd id (Some cl) (claims_of pc))
+          && list_eqb (list_eqb cid_eqb) (do_ids oc)
+               (if is_some (claim_cell pc id) then do_ids pc else ids_upd (cl_topic cl) (ids_at h pc (cl_topic cl) ++ [id]) (do_ids pc)))
+    | RemoveClaim d id =>
+        id_in_universe id &&
+        frame h p o (TIdent d) && ident_effect d (fun pc oc =>
+          match claim_cell pc id with
+          | Some cl =>
+              list_eqb (list_eqb (opt_eqb claim_eqb)) (claims_of oc) (claims_upd id None (claims_of pc))
+              && list_eqb (list_eqb cid_eqb) (do_ids oc)
+                   (ids_upd (cl_topic cl) (remove_first_or_same (cid_eqb id) (ids_at h pc (cl_topic cl))) (do_ids pc))
+          | None => false
+          end)
+    | ForceClaim d id ix cl =>
+        id_in_universe id && mem_z ix (h_topics h) &&
+        frame h p o (TIdent d) && ident_effect d (fun pc oc =>
+          list_eqb (list_eqb (opt_eqb claim_eqb)) (claims_of oc) (claims_upd id (Some cl) (claims_of pc))
+          && list_eqb (list_eqb cid_eqb) (do_ids oc)
+               (if existsb (cid_eqb id) (ids_at h pc ix) then do_ids pc else ids_upd ix (ids_at h pc ix ++ [id]) (do_ids pc)))
+    | AllowKey i _ _ _ _ | RemoveKey i _ _ _ _ => frame h p o (TIssuer i)
+    | Invalidate _ _ _ | SetRevoked _ _ _ _ _ => frame h p o TNone
+    | SetCti c => frame h p o TLinks && opt_eqb N.eqb (vo_cti (o_ver o)) (Some c)
+                  && opt_eqb N.eqb (vo_irs (o_ver o)) (vo_irs (o_ver p))
+    | SetIrs r => frame h p o TLinks && opt_eqb N.eqb (vo_irs (o_ver o)) (Some r)
+                  && opt_eqb N.eqb (vo_cti (o_ver o)) (vo_cti (o_ver p))
+    | _ => frame h p o TNone          (* read-only calls, Advance, Ledger *)
+    end.
 
-(* ghost state of the monitor: the (issuer, key, topic, registry) authorisations granted and not
-   removed so far, reconstructed from the successful allow_key / remove_key calls of the trace.
-   "A key currently allowed for the topic" = a key with such an authorisation for the topic. *)
-Definition grant := (addr * skey * Z * addr)%type.
-Definition grant_eqb (a b : grant) : bool :=
-  let '(i1, k1, t1, r1) := a in let '(i2, k2, t2, r2) := b in
-  N.eqb i1 i2 && skey_eqb k1 k2 && (t1 =? t2) && N.eqb r1 r2.
-Definition ghost_step (g : list grant) (k : call) (out : outcome) : list grant :=
-  match k, out with
-  | AllowKey i pk r sc t, Ok _ => (i, (pk, sc), t, r) :: g
-  | RemoveKey i pk r sc t, Ok _ => filter (fun x => negb (grant_eqb x (i, (pk, sc), t, r))) g
-  | _, _ => g
-  end.
-Definition grant_for (i : addr) (k : skey) (t : Z) (x : grant) : bool :=
-  let '(i', k', t', _) := x in N.eqb i' i && skey_eqb k' k && (t' =? t).
-Definition granted (g : list grant) (i : addr) (k : skey) (t : Z) : bool := existsb (grant_for i k t) g.
+  (* --- answers of the calls the property (or a getter it talks about) determines --- *)
+  Definition is_issuer (i : addr) : bool := mem_a i (h_issuers h).
+  Definition answer_ok (k : call) (out : outcome) : bool :=
+    match k with
+    | Verify a =>
+        match at_key N.eqb a (h_accounts h) (vo_verify (o_ver o)) with
+        | Some v => Bool.eqb (is_ok out) v
+        | None => false
+        end
+    | IsClaimValid i d t scheme sg data => Bool.eqb (is_ok out) (confirm_expected h o g d i t scheme sg data)
+    | ValidateClaim cl t i d =>
+        outcome_eqb out (Ok (VBool ((cl_topic cl =? t) && N.eqb (cl_issuer cl) i
+                                    && confirm_expected h o g d i t (cl_scheme cl) (cl_sig cl) (cl_data cl))))
+    | AuthorizedFor i registry t =>
+        outcome_eqb out
+          (if is_issuer i then
+             match cti_at h o registry with
+             | Some co => match at_key N.eqb i (h_iaddrs h) (co_itopics co) with
+                          | Some (Ok l) => Ok (VBool (mem_z t l))
+                          | Some Fail => Fail
+                          | None => out          (* issuer outside the observed universe: not determined here *)
+                          end
+             | None => Fail
+             end
+           else Fail)
+    | Message i d t data =>
+        outcome_eqb out (if is_issuer i then Ok (VBytes (build_claim_message (h_net h) (xdr_table (h_xdr h) i)
+                                                          (xdr_table (h_xdr h) d) t (gnonce g i d t) data)) else Fail)
+    | Identifier i d t data =>
+        outcome_eqb out (if is_issuer i then Ok (VBytes (build_claim_identifier (h_net h) (xdr_table (h_xdr h) i)
+                                                          (xdr_table (h_xdr h) d) t data)) else Fail)
+    | Extract i scheme sg =>
+        outcome_eqb out (if is_issuer i then res_map (fun sd => VSig (sd_pk sd) (sd_sig sd) (sd_rid sd)) (extract_sig scheme sg) else Fail)
+    | Encode i ca vu pl => outcome_eqb out (if is_issuer i then res_map VBytes (encode_expiration ca vu pl) else Fail)
+    | Decode i data =>
+        outcome_eqb out (if is_issuer i then res_map (fun x : Z * Z * bytes => VDec (fst (fst x)) (snd (fst x)) (snd x)) (decode_expiration data) else Fail)
+    | Expired i data => outcome_eqb out (if is_issuer i then res_map VBool (is_claim_expired (o_now o) data) else Fail)
+    | RecoveryTarget a =>
+        match vo_irs (o_ver o) with
+        | Some r => match irs_at h o r with
+                    | Some io => match at_key N.eqb a (h_accounts h) (io_recovered io) with
+                                 | Some x => outcome_eqb out (Ok (VOptAddr x))
+                                 | None => false
+                                 end
+                    | None => outcome_eqb out Fail
+                    end
+        | None => outcome_eqb out Fail
+        end
+    | SetCti _ | SetIrs _ | Advance _ | Ledger _ _ => is_ok out                 (* cannot fail *)
+    | SetRevoked i _ _ _ _ => Bool.eqb (is_ok out) (is_issuer i)
+    | Invalidate i d t =>      (* fails only at a non-issuer or when the nonce would leave u32 *)
+        Bool.eqb (is_ok out) (is_issuer i && ((if is_ok out then gnonce g i d t else gnonce g i d t + 1) <=? MAXU32))
+    | ForceClaim d _ _ _ => Bool.eqb (is_ok out) (mem_a d (h_idents h))
+    | _ => true
+    end.
 
-(* get_keys_for_topic lists exactly the keys with a live authorisation for the topic *)
-Definition keys_ok (h : hdr) (o : obs) (g : list grant) : bool :=
-  forallb (fun iso : addr * issuer_obs =>
-    forallb (fun tk : Z * res (list skey) =>
-       let listed := match snd tk with Ok l => l | Fail => [] end in
-       forallb (fun k => granted g (fst iso) k (fst tk)) listed
-       && forallb (fun x : grant =>
-                     negb (N.eqb (fst (fst (fst x))) (fst iso) && (snd (fst x) =? fst tk))
-                     || existsb (skey_eqb (snd (fst (fst x)))) listed) g)
-      (combine (h_topics h) (so_keys (snd iso))))
-    (combine (h_issuers h) (o_issuers o)).
+  Definition clock_ok (k : call) (out : outcome) : bool :=
+    o_now o =? o_now p + match k, out with Advance dt, Ok _ => dt | Ledger _ dt, Ok _ => dt | _, _ => 0 end.
 
-Fixpoint mon_from (h : hdr) (prev : option obs) (g : list grant) (l : list item) (i : N) : N :=
+  (* a failing call changes nothing observed; a successful one changes exactly what its kind may *)
+  Definition mon_call (k : call) (out : outcome) : bool :=
+    clock_ok k out && answer_ok k out
+    && match out with
+       | Fail => frame h p o TNone
+       | Ok v => effect_ok k v
+       end.
+End Calls.
+
+(* the observation of the freshly deployed contracts: the state before the first call *)
+Definition empty_obs (h : hdr) : obs :=
+  let nt := h_topics h in let ni := h_iaddrs h in
+  {| o_now := h_now0 h;
+     o_ctis := map (fun _ => CO [] [] (map (fun _ => Fail) nt) (map (fun _ => Fail) ni) (Ok []) (map (fun _ => false) ni)
+                                (map (fun _ => map (fun _ => X) nt) ni)) (h_ctis h);
+     o_irss := map (fun _ => IO (map (fun _ => Fail) (h_accounts h)) (map (fun _ => None) (h_accounts h))) (h_irss h);
+     o_idents := map (fun _ => DO (map (fun _ => []) nt) (map (fun _ => map (fun _ => None) nt) ni)) (h_idents h);
+     o_issuers := map (fun _ => SO (map (fun _ => Fail) nt) (map (fun _ => Fail) (h_keys h))
+                                   (map (fun _ => map (fun _ => 0) nt) (h_idents h)) []) (h_issuers h);
+     o_ver := VO None None (map (fun _ => false) (h_accounts h)) |}.
+
+(* the header declares a non-empty universe, and the issuer contracts are among the issuer addresses *)
+Definition hdr_ok (h : hdr) : bool :=
+  negb (is_nil (h_accounts h)) && negb (is_nil (h_topics h)) && negb (is_nil (h_iaddrs h))
+  && negb (is_nil (h_ctis h)) && negb (is_nil (h_irss h)) && negb (is_nil (h_idents h))
+  && forallb (fun i => mem_a i (h_iaddrs h)) (h_issuers h).
+
+(* the revocation queries of an observation vary from item to item (the harness adds queries as the
+   trace goes; every answer is checked against the ghost in keys_ok): not part of the comparison
+   of two consecutive observations *)
+Definition strip_rev (o : obs) : obs :=
+  {| o_now := o_now o; o_ctis := o_ctis o; o_irss := o_irss o; o_idents := o_idents o;
+     o_issuers := map (fun so => SO (so_keys so) (so_regs so) (so_nonce so) []) (o_issuers o); o_ver := o_ver o |}.
+
+Fixpoint mon_from (h : hdr) (prev : obs) (g : ghost) (l : list item) (i : N) : N :=
   match l with
   | [] => 0%N
   | (k, out, o) :: r =>
       let g' := ghost_step g k out in
-      if mon_state h o && keys_ok h o g' && mon_call h prev k out o
-      then mon_from h (Some o) g' r (N.succ i) else N.succ i
+      if mon_state h o g' && mon_call h (strip_rev prev) (strip_rev o) g' k out
+      then mon_from h o g' r (N.succ i) else N.succ i
   end.
 
 Definition check (t : trace) : verdict :=
   let '(h, l) := t in
-  (diff_from h (init_of h) l 0%N, mon_from h None [] l 0%N, 0%N).
+  (diff_from h (init_of h) l 0%N,
+   if hdr_ok h && negb (is_nil l) then mon_from h (empty_obs h) ghost0 l 0%N else 1%N,
+   0%N).
 Definition check_all (ts : list trace) : list verdict := map check ts.
